@@ -18,7 +18,7 @@ def run(ctx):
                         constants={"W": w}, workers=vlib.NCPU)
     # the threshold arithmetic for EVERY modulus and bound (no width at all), by the TLA+ proof system
     nob = ctx.tlapm("DrawProofs")
-    ctx.cover["tlapm"] = ("DrawProofs.tla: %d obligations proved - for every M > 1 and 1 <= n < M the threshold is the largest multiple of n "
+    ctx.cover["tlapm"] = "proofs not re-checked in this run (prover did not finish)" if not nob else ("DrawProofs.tla: %d obligations proved - for every M > 1 and 1 <= n < M the threshold is the largest multiple of n "
                           "below M, at most n words are rejected, and accepted words <-> (quotient, result) pairs is a bijection "
                           "(every result has exactly T/n raw preimages); the masking branch likewise" % nob)
     ok, txt = ctx.apalache("DrawLemma")
